@@ -175,7 +175,7 @@ func load() (*Loaded, error) {
 // native-replay instrumenter when no SSA is needed).
 func loadTyped() (*packages.Package, error) {
 	env := append(os.Environ(), "GOFLAGS=-mod=mod", "GOPROXY=off")
-	cfg := &packages.Config{Mode: packages.NeedName | packages.NeedFiles | packages.NeedSyntax | packages.NeedTypes | packages.NeedTypesInfo | packages.NeedImports | packages.NeedDeps,
+	cfg := &packages.Config{Mode: packages.NeedName | packages.NeedFiles | packages.NeedCompiledGoFiles | packages.NeedSyntax | packages.NeedTypes | packages.NeedTypesInfo | packages.NeedImports | packages.NeedDeps,
 		Dir: repoDir, Env: env}
 	pkgs, err := packages.Load(cfg, ".")
 	if err != nil {
